@@ -16,6 +16,7 @@ import Driver.Asm
 import Driver.Enc
 import Driver.FlagH
 import Driver.SrcH
+import Driver.BptH
 open Lace Lace.Driver
 
 /-- `X02 stackOn minimal instr <machine> inp-hex`
@@ -95,6 +96,7 @@ def handle (line : String) : String :=
   | "P18" :: rest => handleP18 rest
   | "E15" :: rest => handleSrc "E15" rest
   | "V17" :: rest => handleSrc "V17" rest
+  | "B17" :: rest => handleBpt rest
   | _ => "bad-request"
 
 partial def loop (h : IO.FS.Stream) (out : IO.FS.Stream) : IO Unit := do
